@@ -269,6 +269,54 @@ class Function:
         return set(self.nodes[j]["n"] for j in self.descendants(i)
                    if self.nodes[j].get("k") == "ref" and self.nodes[j].get("dk") in ("var", "param", "global"))
 
+    def var_defs(self, var):
+        """rhs node ids of every plain definition of local `var` (decl init, `=`); None marks
+        a definition whose value is unknown (op=, ++, address passed to a call)."""
+        out = []
+        for bid, i in self.all_events():
+            nd = self.nodes[i]
+            k = nd.get("k")
+            if k == "decl":
+                out.extend(v["init"] for v in nd["vars"] if v["n"] == var and "init" in v)
+            elif k == "bin" and nd.get("asg"):
+                ln = self.nodes[self.strip(nd["lh"])]
+                if ln.get("k") == "ref" and ln["n"] == var:
+                    out.append(nd["rh"] if nd["op"] == "=" else None)
+            elif k == "un" and nd["op"] in ("post++", "post--", "pre++", "pre--"):
+                en = self.nodes[self.strip(nd["e"])]
+                if en.get("k") == "ref" and en["n"] == var:
+                    out.append(None)
+            elif k == "call":
+                for a in nd["a"]:
+                    an = self.nodes[self.strip(a)]
+                    if an.get("k") == "un" and an["op"] == "&":
+                        inner = self.nodes[self.strip(an["e"])]
+                        if inner.get("k") == "ref" and inner["n"] == var:
+                            out.append(None)
+        return out
+
+    def func_values(self, i, _depth=0):
+        """Set of function names expression i may denote (a function designator, or a local that
+        is only ever assigned function designators); None if that cannot be established."""
+        nd = self.nodes[self.strip(i)]
+        if nd.get("k") == "ref" and nd.get("dk") == "func":
+            return {nd["n"]}
+        if nd.get("k") == "cond" and _depth < 3:
+            a, b = self.func_values(nd["th"], _depth + 1), self.func_values(nd["el"], _depth + 1)
+            return None if a is None or b is None else a | b
+        if nd.get("k") == "ref" and nd.get("dk") == "var" and _depth < 3:
+            ds = self.var_defs(nd["n"])
+            if not ds or any(d is None for d in ds):
+                return None
+            out = set()
+            for d in ds:
+                v = self.func_values(d, _depth + 1)
+                if v is None:
+                    return None
+                out |= v
+            return out
+        return None
+
     def has_call(self, i):
         return any(self.nodes[j].get("k") in ("call", "asm", "atomic") for j in self.descendants(i))
 
@@ -373,6 +421,10 @@ class Program:
             self.asm_path = open(ap).read().strip()
             self.asm_text = open(os.path.join(factsdir, "asm.s")).read()
         self._callers = None
+        self.inlined = {}
+        if not os.environ.get("VERIF_NO_INLINE"):
+            from . import inline
+            inline.flatten(self)
 
     def fn(self, name, file=None, required=True):
         """Resolve a function by name (and optionally defining file).  A vanished
